@@ -222,6 +222,9 @@ pub fn run(ctx: &mut Ctx) {
     }
     ctx.floor("lencorrupt.cases", 20_000);
     ctx.floor("lenparam.cases", 8_000);
+    ctx.floor("max-count.messages", 8);
+    ctx.floor("soup.headers", 3_000_000);
+    ctx.floor("soup.accepted", 10_000);
     ctx.floor("ch.versions", 65536);
 
     // ------------------------------------------------ round trips
@@ -327,6 +330,24 @@ pub fn run(ctx: &mut Ctx) {
                 }
             }
         }
+    });
+
+
+    // ------------------------------------------------ lists with very many (minimal) elements
+    ctx.sweep("max-element-counts", 8, |ctx, idx| {
+        let mut r = Rng::new(idx ^ 0x7070);
+        let v = match idx {
+            0 => AHs::Certificate(vec![vec![]; 70_000]),
+            1 => AHs::Certificate((0..20_000).map(|i| vec![i as u8]).collect()),
+            2 => AHs::CertificateRequest { types: r.bytes(255), sigalgs: Some((0..32767).map(|i| i as u16).collect()), cas: vec![vec![]; 32767] },
+            3 => AHs::CertificateRequest { types: vec![], sigalgs: None, cas: (0..10_000).map(|i| vec![i as u8; 3]).collect() },
+            4 => AHs::ClientHello(ACh { version: 0x0303, random: r.bytes(32), sid: r.bytes(32), ciphers: (0..32767).map(|i| i as u16).collect(), comp: r.bytes(255), ext: Some(r.bytes(65535)) }),
+            5 => AHs::CertificateRequest { types: r.bytes(255), sigalgs: Some(vec![]), cas: vec![r.bytes(65533)] },
+            6 => AHs::Certificate(vec![r.bytes(3); 1365]),
+            _ => AHs::NextProtocol { proto: r.bytes(255), pad: r.bytes(255) },
+        };
+        roundtrip(ctx, &v, &[0x5a], ":max-count");
+        ctx.count("max-count.messages");
     });
 
     // ------------------------------------------------ must-reject catalogue
@@ -539,6 +560,55 @@ pub fn run(ctx: &mut Ctx) {
                 ctx.violation(format!("c04:len-param:{}:accepts-buffer-shorter-than-declared", name), json!({"parser": name, "declared_len": n, "buffer_len": cut, "input_hex": hex_short(&body[..cut])}));
             }
         }
+    });
+
+
+    // ------------------------------------------------ handshake header soup: random (type, u24 length) with comparison-prone
+    // bytes and arbitrary bodies; structural oracle only (accepted => exactly the declared bytes, unknown type => no value)
+    let soup = ctx.tier.pick(64, 512);
+    ctx.family("header-soup", soup, |ctx, case: &mut Case| {
+        let r = &mut case.rng;
+        let mut buf = vec![0u8; 4 + 70_000];
+        r.fill(&mut buf[..]);
+        let known = [0u8, 1, 2, 4, 5, 6, 11, 12, 13, 14, 15, 16, 20, 22, 24, 67];
+        let per = 50_000u64;
+        for k in 0..per {
+            for b in buf[..12].iter_mut() {
+                *b = gen::interesting_byte(r);
+            }
+            if k % 2 == 0 {
+                buf[0] = *r.pick(&known);
+            }
+            buf[1] = if k % 5 == 0 { gen::interesting_byte(r) & 1 } else { 0 };
+            let hl = ((buf[1] as usize) << 16) | ((buf[2] as usize) << 8) | buf[3] as usize;
+            let n = if hl + 4 <= buf.len() { 4 + hl + (k as usize % 3) } else { buf.len() };
+            let input = &buf[..n.min(buf.len())];
+            let res = parse_tls_message_handshake(input);
+            let out = classify(&res);
+            if out.is_ok() {
+                ctx.count("soup.accepted");
+                let mut bad = None;
+                if !out.rem_is_suffix(input, 4 + hl) {
+                    bad = Some("remainder-not-at-declared-length");
+                } else if !known.contains(&buf[0]) {
+                    bad = Some("unknown-type-accepted");
+                } else if let Ok((_, m)) = &res {
+                    let mut sl = Vec::new();
+                    m.slices(&mut sl);
+                    if first_outside(&sl, input.as_ptr() as usize + 4, hl).is_some() {
+                        bad = Some("slice-outside-declared-length");
+                    }
+                }
+                if let Some(b) = bad {
+                    ctx.violation(format!("c04:header-soup:{}", b), json!({"rule": b, "type": buf[0], "declared_len": hl, "input_hex": hex_short(&input[..input.len().min(48)])}));
+                }
+            } else if input.len() >= 4 + hl && out.is_incomplete() && !known.contains(&buf[0]) {
+                ctx.violation("c04:header-soup:unknown-type-incomplete-on-complete-message".into(), json!({"type": buf[0], "declared_len": hl}));
+            }
+        }
+        ctx.evals(per);
+        ctx.add("soup.headers", per);
+        ctx.shape(&("soup", case.idx % 32));
     });
 
     // ------------------------------------------------ single length-field corruptions, structural oracle
